@@ -1,5 +1,6 @@
 import HC.Prelude
 import HC.Extracted.Guards
+import HC.Extracted.RedirectSites
 /-!
 # Model of `hypercorn/middleware/{proxy_fix,dispatcher,http_to_https}.py`
 
@@ -135,7 +136,8 @@ structure RScope where
   hasWsResponseExt : Bool
   hostHeader : Option (List Char)     -- first header whose name == b"host", latin-1 decoded
   rootPath : List Char
-  rawPath : List Char                 -- raw_path.decode()
+  rawPath : List Char                 -- raw_path.decode(): the path of the request target exactly as the client sent it
+  path : List Char                    -- scope["path"]: the percent-decoded form the server derives from it
   query : List Char
 deriving Repr, DecidableEq
 
@@ -150,8 +152,15 @@ deriving Repr, DecidableEq
 def pickHost (cfgHost : Option (List Char)) (sc : RScope) : Option (List Char) :=
   match cfgHost with | some h => some h | none => sc.hostHeader
 
+/-- the request path `_new_url` appends to the root path; which scope key it reads is *extracted* from the source
+    (`Extracted.RedirectSites.redirectPathSource`) -/
+def requestPath (sc : RScope) : List Char :=
+  match Extracted.RedirectSites.redirectPathSource with
+  | .rawPath => sc.rawPath
+  | .path => sc.path
+
 def newUrl (cfgHost : Option (List Char)) (scheme : List Char) (sc : RScope) : Option (List Char) :=
-  (pickHost cfgHost sc).map (fun host => urlunsplit scheme host (sc.rootPath ++ sc.rawPath) sc.query)
+  (pickHost cfgHost sc).map (fun host => urlunsplit scheme host (sc.rootPath ++ requestPath sc) sc.query)
 
 def redirect (cfgHost : Option (List Char)) (sc : RScope) : RAction :=
   if sc.kind = "http" ∧ sc.scheme = "http" then
